@@ -18,12 +18,19 @@ import (
 // Ops: "ia" "ib" "ic" (Insert of item a/b/c), "next", "len", "close".
 type SeqScenario struct {
 	Ops []string `json:"ops"`
+	// V is the glog verbosity (-v) of the process while the sequence runs: code inside
+	// `if log.V(n)` blocks of the queue (formatting, extra locking, calls of the queue's own
+	// methods) only executes at V >= n. 0 = the default, as in every test of the repository.
+	V int `json:"glog_v,omitempty"`
 }
 
 var seqAlphabet = []string{"ia", "ib", "ic", "next", "len", "close"}
 
 type seqStats struct {
 	dupWhilePending, closeWithPending, refusedInsert, cancelledNext, closedReported, drainedAfterClose, reinsertAfterDelivery, dupGE2 bool
+	secondLifetime                                                                                                                    bool
+	verbose                                                                                                                           int
+	sawInsert, sawNext, sawClose                                                                                                      bool
 }
 
 func (s seqStats) nontrivial() bool { return s.dupWhilePending && s.closeWithPending }
@@ -43,6 +50,10 @@ func (s seqStats) labels() []string {
 	add(s.closedReported, "closed-reported-when-empty")
 	add(s.drainedAfterClose, "delivery-after-close")
 	add(s.reinsertAfterDelivery, "reinsert-after-delivery")
+	add(s.secondLifetime, "stale-handle-of-closed-queue-used-after-next-NewQueue")
+	add(s.verbose > 0, "glog-verbosity>0")
+	add(s.verbose > 0 && s.sawInsert && s.sawNext && s.sawClose, "glog-verbosity>0:insert+next+close+len-in-one-sequence")
+	add(s.verbose > 0 && s.dupWhilePending && s.closeWithPending, "glog-verbosity>0:nontrivial")
 	return l
 }
 
@@ -50,28 +61,56 @@ func (s seqStats) labels() []string {
 // goroutine of the bubble durably blocked, which synctest reports by a panic
 // on the calling goroutine: that is how "Next ignored the cancelled context"
 // (or any other unexpected blocking) is decided without a wall-clock timeout.
+// A call that waits for a mutex forever is not durably blocked; that verdict
+// comes from the lock watch (lockwatch.go), which reads progress.
+// The caller has set the process's glog verbosity to sc.V (seqAtV).
 func runSeq(t *testing.T, sc *SeqScenario) (st seqStats, err error) {
 	var progress atomic.Int32
+	return runSeqP(t, sc, &progress)
+}
+
+func runSeqP(t *testing.T, sc *SeqScenario, progress *atomic.Int32) (st seqStats, err error) {
 	progress.Store(-1)
 	defer func() {
 		if r := recover(); r != nil {
-			i := int(progress.Load())
-			what := "?"
-			if i >= 0 && i < len(sc.Ops) {
-				what = sc.Ops[i]
-			}
-			err = newVerr("blocked-call", "op %d (%s) did not return: %v", i, what, r)
+			err = newVerr("blocked-call", "%s did not return (glog verbosity %d): %v", seqWhere(sc, int(progress.Load())), sc.V, r)
 		}
 	}()
 	synctest.Test(t, func(*testing.T) {
 		defer func() {
 			if r := recover(); r != nil {
-				err = newVerr("panic", "panic at op %d: %v", progress.Load(), r)
+				err = newVerr("panic", "panic at %s (glog verbosity %d): %v", seqWhere(sc, int(progress.Load())), sc.V, r)
 			}
 		}()
-		st, err = runSeqBubble(sc, &progress)
+		st, err = runSeqBubble(sc, progress)
 	})
 	return st, err
+}
+
+// seqWhere names the call a sequence is in. Every op is followed by Len() and IsClosed();
+// progress is 3*i while op i runs, 3*i+1 during the Len() after it, 3*i+2 during IsClosed().
+func seqWhere(sc *SeqScenario, progress int) string {
+	i := progress / 3
+	switch {
+	case progress < 0:
+		return "NewQueue()"
+	case i >= len(sc.Ops):
+		return "the second-lifetime epilogue (NewQueue after the closed queue was drained, then calls through the old handle)"
+	}
+	what := map[string]string{"ia": "Insert(a)", "ib": "Insert(b)", "ic": "Insert(c)", "next": "Next", "len": "Len()", "close": "Close()"}[sc.Ops[i]]
+	switch progress % 3 {
+	case 1:
+		return fmt.Sprintf("Len() after op %d (%s)", i, what)
+	case 2:
+		return fmt.Sprintf("IsClosed() after op %d (%s)", i, what)
+	}
+	return fmt.Sprintf("op %d (%s)", i, what)
+}
+
+// seqAtV runs f with the process's glog verbosity set to v.
+func seqAtV(v int, f func()) {
+	defer vstat.SetGlogV(v)()
+	f()
 }
 
 func runSeqBubble(sc *SeqScenario, progress *atomic.Int32) (st seqStats, err error) {
@@ -82,10 +121,13 @@ func runSeqBubble(sc *SeqScenario, progress *atomic.Int32) (st seqStats, err err
 	dead, cancelDead := context.WithCancel(context.Background())
 	cancelDead()
 	delivered := [maxItems]bool{}
+	st.verbose = sc.V
+	toldClosed := false
 	for i, op := range sc.Ops {
-		progress.Store(int32(i))
+		progress.Store(int32(3 * i))
 		switch op {
 		case "ia", "ib", "ic":
+			st.sawInsert = true
 			x := int(op[1] - 'a')
 			fresh, ierr := q.Insert(x)
 			if m.closed {
@@ -114,6 +156,7 @@ func runSeqBubble(sc *SeqScenario, progress *atomic.Int32) (st seqStats, err err
 				st.reinsertAfterDelivery = true
 			}
 		case "next":
+			st.sawNext = true
 			switch {
 			case len(m.fifo) > 0:
 				it, dup, nerr := q.Next(live)
@@ -142,6 +185,7 @@ func runSeqBubble(sc *SeqScenario, progress *atomic.Int32) (st seqStats, err err
 					return st, newVerr("no-closed-report", "op %d Next on an empty closed queue returned (%v, %v), want the closed-queue error", i, it, nerr)
 				}
 				st.closedReported = true
+				toldClosed = true
 			default:
 				// would block: called with an already-cancelled context
 				it, _, nerr := q.Next(dead)
@@ -159,6 +203,7 @@ func runSeqBubble(sc *SeqScenario, progress *atomic.Int32) (st seqStats, err err
 		case "len":
 			// checked after every op below
 		case "close":
+			st.sawClose = true
 			if len(m.fifo) > 0 && !m.closed {
 				st.closeWithPending = true
 			}
@@ -167,14 +212,48 @@ func runSeqBubble(sc *SeqScenario, progress *atomic.Int32) (st seqStats, err err
 		default:
 			return st, fmt.Errorf("unknown op %q", op)
 		}
+		progress.Store(int32(3*i + 1))
 		if n := q.Len(); n != len(m.fifo) {
 			return st, newVerr("len-mismatch", "after op %d (%s) Len()=%d, model %s", i, op, n, &m)
 		}
+		progress.Store(int32(3*i + 2))
 		if c := q.IsClosed(); c != m.closed {
 			return st, newVerr("isclosed-mismatch", "after op %d (%s) IsClosed()=%v, model %s", i, op, c, &m)
 		}
 	}
-	progress.Store(int32(len(sc.Ops)))
+	progress.Store(int32(3 * len(sc.Ops)))
+	if toldClosed && len(m.fifo) == 0 {
+		// Second lifetime: the queue is closed, drained and its consumer has been told so. The server
+		// creates the next subscriber's queue now, while producers of the finished subscription still
+		// hold the old handle: "insertions after close are refused" has no expiry date, and what goes
+		// into the new queue is exactly what comes out of it.
+		st.secondLifetime = true
+		q2 := coalesce.NewQueue()
+		if fresh, err := q2.Insert(7); err != nil || !fresh {
+			return st, newVerr("insert-refused-while-open", "Insert(7) into a new queue (created after the first one was closed and drained) returned (%v, %v)", fresh, err)
+		}
+		if fresh, err := q.Insert(0); err == nil {
+			return st, newVerr("insert-after-close-accepted", "Insert(a) through the handle of the closed and drained queue, after NewQueue() was called for the next queue, returned (%v, nil)", fresh)
+		} else if !coalesce.IsClosedQueue(err) {
+			return st, newVerr("unexpected-error", "Insert(a) on the closed queue returned error %v, not the closed-queue error", err)
+		}
+		if n, c := q.Len(), q.IsClosed(); n != 0 || !c {
+			return st, newVerr("len-mismatch", "closed and drained queue after NewQueue() for the next queue: Len()=%d IsClosed()=%v, want 0 true", n, c)
+		}
+		if _, _, nerr := q.Next(live); !coalesce.IsClosedQueue(nerr) {
+			return st, newVerr("no-closed-report", "Next on the closed and drained queue, after NewQueue() for the next queue, returned %v, want the closed-queue error", nerr)
+		}
+		if n, c := q2.Len(), q2.IsClosed(); n != 1 || c {
+			return st, newVerr("len-mismatch", "new queue holding one item: Len()=%d IsClosed()=%v, want 1 false", n, c)
+		}
+		if it, dup, nerr := q2.Next(live); nerr != nil || it != 7 || dup != 0 {
+			return st, newVerr("delivery-not-pending", "new queue holding item 7: Next returned (%v, dup %d, %v)", it, dup, nerr)
+		}
+		q2.Close()
+		if _, _, nerr := q2.Next(live); !coalesce.IsClosedQueue(nerr) {
+			return st, newVerr("no-closed-report", "Next on the second queue, closed and empty, returned %v", nerr)
+		}
+	}
 	return st, nil
 }
 
@@ -196,8 +275,9 @@ func classOf(err error) string {
 	return "harness-error"
 }
 
-// enumerateSeq calls f on every sequence of exactly n ops, split over all cores.
-func enumerateSeq(n int, f func(*SeqScenario) bool) {
+// enumerateSeq calls f on every sequence of exactly n ops (at glog verbosity v, which the caller
+// has set), split over all cores. Every worker announces its case to the lock watch.
+func enumerateSeq(n, v int, w *lockWatch, f func(*SeqScenario, *atomic.Int32) bool) {
 	total := 1
 	for i := 0; i < n; i++ {
 		total *= len(seqAlphabet)
@@ -216,14 +296,22 @@ func enumerateSeq(n int, f func(*SeqScenario) bool) {
 		go func(lo, hi int) {
 			defer wg.Done()
 			defer func() { <-sem }()
-			sc := &SeqScenario{Ops: make([]string, n)}
-			for v := lo; v < hi; v++ {
-				w := v
+			sc := &SeqScenario{Ops: make([]string, n), V: v}
+			var progress atomic.Int32
+			slot := w.slot()
+			sample := func() (any, string) {
+				return &SeqScenario{Ops: append([]string(nil), sc.Ops...), V: sc.V}, seqWhere(sc, int(progress.Load()))
+			}
+			for idx := lo; idx < hi; idx++ {
+				rest := idx
 				for i := n - 1; i >= 0; i-- {
-					sc.Ops[i] = seqAlphabet[w%len(seqAlphabet)]
-					w /= len(seqAlphabet)
+					sc.Ops[i] = seqAlphabet[rest%len(seqAlphabet)]
+					rest /= len(seqAlphabet)
 				}
-				if !f(sc) {
+				slot.begin(sample)
+				ok := f(sc, &progress)
+				slot.end()
+				if !ok {
 					return
 				}
 			}
@@ -234,7 +322,12 @@ func enumerateSeq(n int, f func(*SeqScenario) bool) {
 
 const seqMaxLen = 7
 
-// TestC11Exhaustive enumerates every sequence of <=7 ops over the 6-op alphabet.
+// seqPhases: the whole space at the default verbosity, then bounded sub-enumerations with the
+// process's glog verbosity raised (the verbosity is process-wide, so the phases run one after the other).
+var seqPhases = []struct{ v, maxLen int }{{0, seqMaxLen}, {2, 6}, {3, 6}, {1, 5}}
+
+// TestC11Exhaustive enumerates every sequence of <=7 ops over the 6-op alphabet, and every
+// sequence of <=6 (<=5) ops again at glog verbosity 2 and 3 (1).
 func TestC11Exhaustive(t *testing.T) {
 	if !vstat.Enabled("C11") {
 		t.Skip()
@@ -242,15 +335,17 @@ func TestC11Exhaustive(t *testing.T) {
 	rec := vstat.New("C11", "exhaustive")
 	defer rec.Flush(true)
 	rec.SetExhaustive()
+	w := watchPart(rec, "seq")
+	defer w.close()
 	var violations atomic.Int32
-	check := func(sc *SeqScenario) bool {
-		st, err := runSeq(t, sc)
+	check := func(sc *SeqScenario, progress *atomic.Int32) bool {
+		st, err := runSeqP(t, sc, progress)
 		nt := st.nontrivial()
 		var h uint64
 		if nt {
 			h = vstat.Hash(sc)
 		}
-		clone := func() any { return &SeqScenario{Ops: append([]string(nil), sc.Ops...)} }
+		clone := func() any { return &SeqScenario{Ops: append([]string(nil), sc.Ops...), V: sc.V} }
 		rec.CaseHash(h, nt, clone, st.labels()...)
 		if err != nil {
 			rec.AddViolation(clone(), "seq", classOf(err), "%v", err)
@@ -258,10 +353,15 @@ func TestC11Exhaustive(t *testing.T) {
 		}
 		return violations.Load() == 0
 	}
-	for n := 1; n <= seqMaxLen && violations.Load() == 0; n++ {
-		enumerateSeq(n, check)
+	for _, ph := range seqPhases {
+		seqAtV(ph.v, func() {
+			for n := 1; n <= ph.maxLen && violations.Load() == 0; n++ {
+				enumerateSeq(n, ph.v, w, check)
+			}
+		})
 	}
-	rec.Note("exhaustive: all sequences of <=%d ops over {Insert(a),Insert(b),Insert(c),Next,Len,Close} from one goroutine, each in its own synctest bubble (a call that blocks is detected as a bubble deadlock); Next uses an already-cancelled context exactly when the model says it would block; Len() and IsClosed() compared after every op", seqMaxLen)
+	rec.Note("exhaustive: all sequences of <=%d ops over {Insert(a),Insert(b),Insert(c),Next,Len,Close} from one goroutine, each in its own synctest bubble (a call that blocks is detected as a bubble deadlock, a call that waits for a lock nobody can release by the lock watch: goroutine states, not a timeout); Next uses an already-cancelled context exactly when the model says it would block; Len() and IsClosed() compared after every op; a sequence that ends closed, drained and told so continues into a second queue lifetime (NewQueue, then Insert/Len/IsClosed/Next through the old handle and the new one)", seqMaxLen)
+	rec.Note("exhaustive: glog verbosity as a dimension: all sequences of <=6 ops again at -v=2 and at -v=3, all of <=5 ops at -v=1 (labels glog-verbosity>0...); the verbosity is part of the scenario (glog_v)")
 	if violations.Load() > 0 {
 		t.Fail()
 	}
